@@ -62,7 +62,7 @@ def _has_quant(t):
 class Engine(MatrixTheory, NumpyTheory, Evaluator):
     BUILTINS = {'len', 'min', 'max', 'abs', 'int', 'range', 'list', 'tuple', 'isinstance', 'slice', 'all', 'any',
                 'implies', 'old', 'enumerate', 'zip', 'ceil', 'floor', 'float', 'bool', 'str', 'dict', 'getattr',
-                'round', 'iff', 'sorted', 'ite', 'map', 'super', 'fresh_obj', 'same_fields_except', 'is_fresh', 'psum', 'ops_fold', 'op_row', 'nblocks', 'flat', 'elems', 'is_list', 'is_none', 'smul', 'smul_def', 'sq', 'rpsum', 'same_rows', 'same_lengths', 'width', 'same_widths', 'depth'}
+                'round', 'iff', 'sorted', 'ite', 'map', 'super', 'fresh_obj', 'same_fields_except', 'is_fresh', 'psum', 'ops_fold', 'op_row', 'nblocks', 'flat', 'elems', 'is_list', 'is_none', 'smul', 'smul_def', 'sq', 'rpsum', 'same_rows', 'same_lengths', 'width', 'same_widths', 'depth', 'origin', 'empty'}
 
     def __init__(self, spec_module_path=None):
         self.obs = []
@@ -602,6 +602,12 @@ class Engine(MatrixTheory, NumpyTheory, Evaluator):
         if name == 'getattr':
             if isinstance(args[1], VDunder) and isinstance(args[0], VList):
                 return VFunc('nddunder', 'dunder', self_val=args[0], extra=args[1].op)
+            if isinstance(args[1], VStr) and isinstance(args[0], VElem) and len(args) > 2 and args[1].s.startswith('__'):
+                # getattr(opaque, '__x__', default): an opaque value determined by the object and the default (A-PURE: no side effect)
+                g_ = z3.Function('getattr_' + args[1].s.strip('_'), Elem, Elem, Elem)
+                d_ = args[2]
+                d_t = flatten('elem', d_)[0] if isinstance(d_, (VElem, VNone, VStr)) else z3.Const(fresh_name('dflt'), Elem)
+                return VElem(g_(args[0].t, d_t))
             if isinstance(args[1], VStr):
                 try:
                     return self.getattr_(args[0], args[1].s, st, node)
@@ -609,6 +615,9 @@ class Engine(MatrixTheory, NumpyTheory, Evaluator):
                     if len(args) > 2:
                         return args[2]
                     raise
+        if name == 'str' and len(args) == 1 and isinstance(args[0], VElem):
+            # str(opaque): an opaque string determined by the object (A-PURE: __str__ has no side effect)
+            return VElem(z3.Function('str_of', Elem, Elem)(args[0].t))
         if name == 'is_list':
             return VBool(isinstance(args[0], VList))
         if name == 'is_none':
@@ -654,6 +663,16 @@ class Engine(MatrixTheory, NumpyTheory, Evaluator):
             # rpsum(list_of_arrays, p): number of elements in the first p arrays
             rc = st.heap.rags[args[0].ref]
             return VInt(self.rag_psum(rc, st)(as_int(args[1])))
+        if name == 'empty':
+            # empty('int') / empty('elem'): a typed empty list (initial value of ghost traces)
+            et_ = parse_type(args[0].s)
+            return st.heap.alloc_list(et_, z3.IntVal(0), [z3.K(z3.IntSort(), self.default_of(s_)) for s_ in leaf_sorts(et_)])
+        if name == 'origin':
+            # origin(L, p): index, in the list L was selected from, of the element at position p (L built by filter comprehensions / their concatenation)
+            O = st.heap.origins.get(args[0].ref)
+            if O is None:
+                raise Unsupported('origin() of a list that is not a selection')
+            return VInt(O[as_int(args[1])])
         if name == 'depth':
             return VInt(args[0].depth)
         if name == 'width':
@@ -1375,6 +1394,13 @@ class Engine(MatrixTheory, NumpyTheory, Evaluator):
                 st.heap.rags[rg.ref] = st.heap.rags.pop(tmp.ref)
         # ghost state may be updated by any yield / callback inside the body: havoc all of it
         for g, cur in list(st.ghost.items()):
+            if isinstance(cur, VList):
+                # a ghost trace (list): fresh content of the same element type
+                ce_ = st.heap.lists[cur.ref]
+                if ce_.etype is None:
+                    raise Unsupported('ghost list %s needs a typed initial value, e.g. empty(\'int\')' % g)
+                st.ghost[g] = self.fresh_value(('list', ce_.etype), 'ghost_' + g, st)
+                continue
             st.ghost[g] = self.fresh_value(infer_etype(cur), 'ghost_' + g, st)
         ltypes = dict(self.cur.locals)
         ltypes.update(lc.get('locals', {}))
